@@ -30,7 +30,7 @@ def digest_result(score, res):
     if isinstance(res, score.Part):
         return proj.digest(proj.project_part(res, exclude=("Segment",)))
     if isinstance(res, score.Score):
-        return proj.digest(proj.project_score(res))
+        return proj.digest(proj.project_score(res, exclude=("Segment",)))
     if isinstance(res, (list, tuple)):
         return proj.digest([digest_result(score, r) for r in res])
     if hasattr(res, "tocsr") or hasattr(res, "toarray"):
@@ -126,6 +126,10 @@ def make_perf(P, rng):
                     for _ in range(rng.randint(0, 3))]
         parts.append(P.PerformedPart(notes, id="pp%d" % k, part_name="pp%d" % k, controls=controls))
     return P.Performance(id="perf", performedparts=parts)
+
+
+INPLACE_OPS = {"add_measures", "tie_notes", "find_tuplets", "fill_rests", "use_musical_beat", "use_notated_beat",
+               "add_object", "remove_object", "merge_parts_inplace"}      # as in ObserverTrace.tla
 
 
 def add_repeat_structure(score, part, rng):
@@ -327,7 +331,7 @@ def main(chk):
                 ns_after = fp_nosg()
                 ev["only_segments"] = 1 if (after != before and ns_after == ns_before) else 0
             events.append(ev)
-        traces.append({"tid": t + 1, "fp0": fp0, "events": events,
+        traces.append({"tid": t + 1, "fp0": fp0, "events": events, "memo0": [],
                        "kind": "match_triple" if is_match else "note_array" if is_arr else ("performance" if is_perf else "score")})
     wd = tlc.workdir("c20/obs")
     path = os.path.join(wd, "batch.json")
@@ -362,7 +366,19 @@ def main(chk):
                                   exc=ev["err"].split(":")[0], only_segments=ev.get("only_segments", 0))
                 rest = t["events"][l:]
                 if rest:
-                    new_traces.append({"tid": t["tid"], "fp0": rest[0]["fp_before"], "events": rest, "kind": t["kind"]})
+                    memo0 = []
+                    if cl == ["argument_modified"] and ev.get("only_segments", 0):
+                        # only Segment objects were left on the argument (the recorded finding says nothing else changes):
+                        # what was observed since the last in-place operation must still be observed afterwards
+                        # (pretty() lists the registered objects, Segments included, so it is not carried over)
+                        seen = {m["k"]: m["v"] for m in t.get("memo0", [])}
+                        for e in t["events"][:l]:
+                            if e["op"] in INPLACE_OPS:
+                                seen = {}
+                            elif e["key"] not in seen:
+                                seen[e["key"]] = e["result"]
+                        memo0 = [{"k": k, "v": v} for k, v in sorted(seen.items()) if k != "pretty"]
+                    new_traces.append({"tid": t["tid"], "fp0": rest[0]["fp_before"], "events": rest, "kind": t["kind"], "memo0": memo0})
         traces = new_traces
         if not traces:
             break
